@@ -40,9 +40,10 @@ func (d *digest) Sum() []uints.U8 {
 }
 
 func (d *digest) FixedLengthSum(length frontend.Variable) []uints.U8 {
-	comparator := cmp.NewBoundedComparator(d.api, big.NewInt(int64(len(d.in))), false)
 	// in case the lower bound on the length of input is given, check that the input is long enough
+	// (the comparator cannot be built for an empty input, and is not needed then)
 	if d.minimalLength > 0 {
+		comparator := cmp.NewBoundedComparator(d.api, big.NewInt(int64(len(d.in))), false)
 		comparator.AssertIsLessEq(d.minimalLength, length)
 	}
 
